@@ -7,6 +7,7 @@ import (
 	"bytes"
 	"fmt"
 	"testing"
+	"time"
 
 	"github.com/tonkeeper/tongo/boc"
 
@@ -14,7 +15,7 @@ import (
 	"verifharness/internal/ref"
 )
 
-var parsedCheck = &core.Check{Name: "c06/parsed-cell", Quick: 6000, Thorough: 600000, Fn: func(c *core.Ctx) error {
+var parsedCheck = &core.Check{Name: "c06/parsed-cell", Quick: 6000, Thorough: 600000, Hang: caseHang, Fn: func(c *core.Ctx) error {
 	n := 0
 	switch c.Weighted("bits.kind", 3, 3, 1) {
 	case 0:
@@ -155,3 +156,7 @@ func bitString(b ref.Bits) boc.BitString {
 	_ = s.WriteBitArray(b)
 	return s
 }
+
+// caseHang: every case of this package is a few microseconds of pure computation; a case that is still running
+// after a minute does not come to an end (the property's operations return values or errors).
+const caseHang = 60 * time.Second
